@@ -67,6 +67,9 @@ func (s *SplitStrategy) Compute(snapshots <-chan *asset.Snapshot) <-chan Action 
 				result <- Hold
 			}
 		}
+
+		go helper.Drain(buyActions)
+		go helper.Drain(sellActions)
 	}()
 
 	return result
